@@ -170,6 +170,8 @@ def run(ch: Checker) -> None:
     ch.rule('C03.4', 'no unchecked fixed-width skip in the chunk decoder; a chunk is not completed without its CRLF consumed or the shortfall recorded', 1)
     ch.rule('C03.6', 'completion typestate: HttpParser enters COMPLETE only (a) when the chunk decoder is COMPLETE, (b) when len(body) reached Content-Length, (c) from HEADERS_COMPLETE with no input left '
                      'and NO body announced (neither Content-Length > 0 nor chunked), (d) for a bare response line followed by CRLF', 3)
+    ch.rule('C03.7', 'the parsers test their optional sub-objects (self.chunk, self._url, ...) for presence by truthiness; that is sound only while those classes define neither __len__ nor __bool__ '
+                     '(a chunk decoder that is "empty" mid-chunk must not be replaced by a fresh one: the carried-over size line / partial data would be dropped)', 1)
     ch.rule('C03.5', 'dispatch: INITIALIZED -> _process_line, LINE_RCVD/RCVING_HEADERS -> _process_headers, HEADERS_COMPLETE/RCVING_BODY -> _process_body; chunk states WAITING_FOR_SIZE/WAITING_FOR_DATA both handled', 2)
 
     parse = prog.own_method('HttpParser', 'parse')
@@ -280,6 +282,8 @@ def run(ch: Checker) -> None:
 
     # ---------------- chunk decoder: C03.1 (carry), C03.3 (split), C03.4 (skip)
     completion_typestate_check(ch, 'C03.6')
+    from .common import truthiness_presence_check
+    truthiness_presence_check(ch, 'C03.7', ('proxy.http.parser', 'proxy.http.url'))
     chunk_decoder_checks(ch, 'C03.1', 'C03.3', 'C03.4')
 
     # ---------------- C03.5 dispatch
